@@ -125,7 +125,10 @@ def _machine(ctx, opaque=()):
         if q not in direct:
             direct[q] = sc.is_function() and any(_attr_writers([sc], a) for a in ("lam", "kappa", "p"))
         return direct[q]
-    M.may_inline = lambda sc: sc.qualname not in M.opaque_names and (orig(sc) or glue(sc))
+    def private_helper_module(sc):
+        """helpers moved into a private module of the package (`optimism/_xxx.py`) are part of the code that is analysed"""
+        return sc.module.name.split(".")[-1].startswith("_") and not sc.module.name.startswith(STOP_PREFIX)
+    M.may_inline = lambda sc: sc.qualname not in M.opaque_names and (orig(sc) or glue(sc) or private_helper_module(sc))
     return M
 
 
